@@ -152,6 +152,24 @@ theorem C08_count_conflicts_kind (fuel : Nat) (v : PV) (keys : IOL) (e : String)
   rw [(occ_evs v).2.2]
   exact run_err_kind _ _ _ hr
 
+/-- **Count conflicts, in one statement**: success means one kind of count per variable (among the
+occurrences and with the signature so far); a failure is one of the two count conflicts, each
+witnessed by two conflicting records; and with enough fuel on a resolved value, failure happens
+exactly when the counts are inconsistent. -/
+theorem C08_count_conflicts (fuel : Nat) (v : PV) (keys : IOL) :
+    (∀ keys', getKeysInner fuel v keys false = .ok keys' → Consistent keys.keysMut (occCounts v)) ∧
+    (∀ e, getKeysInner fuel v keys false = .err e →
+      (e = "RangeTypeMissmatch" ∧ ∃ n t t', t ≠ t' ∧
+          Recorded keys.keysMut (occCounts v) n (.range t) ∧ (n, .range t') ∈ occCounts v) ∨
+      (e = "RangeAndPluralsMix" ∧ ∃ n t,
+          Recorded keys.keysMut (occCounts v) n .plural ∧ Recorded keys.keysMut (occCounts v) n (.range t) ∧
+          ((n, .plural) ∈ occCounts v ∨ (n, .range t) ∈ occCounts v))) ∧
+    (depth v < fuel → resolved v = true →
+      ((∃ e, getKeysInner fuel v keys false = .err e) ↔ ¬ Consistent keys.keysMut (occCounts v))) :=
+  ⟨fun k' h => C08_count_conflicts_ok fuel v keys k' h,
+   fun e h => C08_count_conflicts_kind fuel v keys e h,
+   fun hf hr => C08_count_conflicts_err_iff fuel v keys hf hr⟩
+
 /-! ## several locales, one key -/
 
 /-- what merging one locale's (reduced) value `cur` does to the signature `iol` of a key — the
@@ -451,6 +469,68 @@ theorem C08_union_order_irrelevant (recMerge : MergeRec) (kp : KeyPath) (fuel f2
       | none => rfl
       | some ty => rw [(a4 n ty).mpr ((hex _).mpr ((b4 n ty).mp hc2))] at hc; cases hc
 
+/-! ## the signature stays a sorted map -/
+
+theorem MergeStep.sorted {iol iol' : IOL} {cur : PV} (h : MergeStep iol cur iol')
+    (hs : Sorted iol.keysMut.vars) : Sorted iol'.keysMut.vars := by
+  cases cur with
+  | dflt => simp only [MergeStep] at h; subst h; exact hs
+  | lit l =>
+    simp only [MergeStep] at h
+    subst h
+    cases iol with
+    | interpol K => exact hs
+    | lit ty => simp only; split <;> simp [IOL.keysMut, Sorted]
+  | subkeys l => exact absurd h (by simp [MergeStep])
+  | fk f => exact run_sorted _ _ _ h hs
+  | ranges ck t bs => exact run_sorted _ _ _ h hs
+  | var k f => exact run_sorted _ _ _ h hs
+  | comp k i => exact run_sorted _ _ _ h hs
+  | bloc items => exact run_sorted _ _ _ h hs
+  | plurals r ck o fs => exact run_sorted _ _ _ h hs
+
+/-- **The variables of a key form a sorted map** (the `BTreeMap` invariant): keys strictly
+increasing, hence no variable twice and every entry visible to a lookup — for the key created by
+the default locale and after merging any number of locales. -/
+theorem C08_signature_sorted (recMerge : MergeRec) (kp : KeyPath) (fuel f2 : Nat) (strs : List Str)
+    (v0 : PV) (iol0 : IOL) (d : Defaults)
+    (h0 : getKeysInner fuel (indexStrings f2 v0 strs).1 (.lit .string) true = .ok iol0) :
+    ∀ (ls : List Contribution) (iol' : IOL) (d' : Defaults),
+    mergeAll recMerge kp ls (.value iol0 d) = .ok (.value iol' d') → Sorted iol'.keysMut.vars := by
+  have hs0 : Sorted iol0.keysMut.vars := by
+    cases fuel with
+    | zero => rw [getKeysInner] at h0; cases h0
+    | succ fuel =>
+      rw [gki_top] at h0
+      generalize (indexStrings f2 v0 strs).1 = w at h0
+      have other : getKeysInner (fuel + 1) w (.lit .string) false = .ok iol0 → Sorted iol0.keysMut.vars := by
+        intro h
+        exact run_sorted _ _ _ (gki_run _ _ _ _ h trivial) (by simp [IOL.keysMut, Sorted])
+      cases w with
+      | lit l => simp only [Res.ok.injEq] at h0; subst h0; simp [IOL.keysMut, Sorted]
+      | _ => exact other h0
+  have key : ∀ (ls : List Contribution) (iol iol' : IOL) (d d' : Defaults), Sorted iol.keysMut.vars →
+      mergeAll recMerge kp ls (.value iol d) = .ok (.value iol' d') → Sorted iol'.keysMut.vars := by
+    intro ls
+    induction ls with
+    | nil =>
+      intro iol iol' d d' hs h
+      simp only [mergeAll, Res.ok.injEq, LV.value.injEq] at h
+      rw [← h.1]; exact hs
+    | cons c rest ih =>
+      intro iol iol' d d' hs h
+      rw [mergeAll] at h
+      cases hm : mergeValue recMerge c.top c.dto kp c.cur (.value iol d) c.st with
+      | err e => rw [hm] at h; cases h
+      | panic p => rw [hm] at h; cases h
+      | ok res =>
+        obtain ⟨v1, lv1, st1⟩ := res
+        rw [hm] at h
+        obtain ⟨iol1, d1, rfl, hstep⟩ := mergeValue_value _ _ _ _ _ _ _ _ _ _ _ hm
+        exact ih iol1 iol' d1 d' (hstep.sorted hs) h
+  intro ls iol' d' h
+  exact key ls iol0 iol' d d' hs0 h
+
 /-! ## literal key or builder -/
 
 /-- the value is a plain literal of type `t`, or an explicit default (`null`) -/
@@ -565,5 +645,53 @@ theorem C08_lit_kind (recMerge : MergeRec) (kp : KeyPath) :
         · right; exact ⟨⟨c', by simp [hc'], hb⟩, hd⟩
       · right
         exact ⟨⟨c, by simp, hl⟩, C08_interpol_stays recMerge kp rest K d1 lv' h⟩
+
+/-- every value `reduce` returns is in the normal form `C08_lit_kind` asks for: it is a literal, an
+explicit default, subkeys, or it uses at least one variable, component or count (`merge` reduces
+each value before merging it) -/
+theorem C08_reduce_normal (v v' : PV) (h : Reduce.reduce v = .ok v') : normal v' = true :=
+  reduce_normal v v' h
+
+/-! ## examples: the hypotheses are satisfiable, the conflicts are reported -/
+
+private def s (x : String) : Str := x.toList
+/-- `"a {{ x }} <b>{{ y, number }}</b>"` with a range on `count: i32` and a plural on `n` -/
+private def v1 : PV :=
+  .bloc [.lit (.str (s "a ") none), .var (s "x") .none, .comp (s "b") (.var (s "y") (.number .auto)),
+    .ranges (s "count") .i32 [(.exact ⟨0, 0⟩, .var (s "x") (.date .long)), (.fallback, .lit (.str (s "many") none))],
+    .plurals .cardinal (s "n") (.var (s "n") .none) [(.one, .lit (.str (s "one") none))]]
+
+example : ∃ k', getKeysInner 10 v1 (.lit .string) false = .ok k' := by
+  rw [gki_eq_run _ _ _ (by decide) (by decide)]
+  exact ⟨_, rfl⟩
+example : occVars v1 = [(s "x", .none), (s "y", .number .auto), (s "x", .date .long), (s "n", .none)] := by decide
+example : occComps v1 = [s "b"] := by decide
+example : occCounts v1 = [(s "count", .range .i32), (s "n", .plural)] := by decide
+/-- a range and a plural sharing the count key -/
+private def v2 : PV := .bloc [.ranges (s "n") .u8 [], .plurals .cardinal (s "n") (.lit (.str [] none)) []]
+example : getKeysInner 10 v2 (.lit .string) false = .err "RangeAndPluralsMix" := by
+  rw [gki_eq_run _ _ _ (by decide) (by decide)]; rfl
+private def v3 : PV := .bloc [.ranges (s "n") .u8 [], .ranges (s "n") .i32 []]
+example : getKeysInner 10 v3 (.lit .string) false = .err "RangeTypeMissmatch" := by
+  rw [gki_eq_run _ _ _ (by decide) (by decide)]; rfl
+
+private def noRec : MergeRec := fun _ _ _ _ => .panic "unused"
+private def kp0 : KeyPath := ⟨none, [s "k"]⟩
+private def d0 : Defaults := ⟨s "en", []⟩
+example : mergeAll noRec kp0
+    [⟨s "fr", .implicit (s "en"), .lit (.unsigned 5), {}⟩, ⟨s "de", .implicit (s "en"), .dflt, {}⟩]
+    (.value (.lit .string) d0) = .ok (.value (.interpol {}) ⟨s "en", [(s "de", s "en")]⟩) := by rfl
+
+private theorem indexStrings_var (fuel : Nat) (k : Str) (f : Fmt) (acc : List Str) :
+    indexStrings fuel (.var k f) acc = (.var k f, acc) := by
+  cases fuel <;> simp [indexStrings]
+
+example : ∃ K d', mergeAll noRec kp0
+    [⟨s "fr", .implicit (s "en"), .lit (.str (s "x") none), {}⟩, ⟨s "de", .implicit (s "en"), .var (s "x") .none, {}⟩]
+    (.value (.lit .string) d0) = .ok (.value (.interpol K) d') := by
+  have e : ∀ iol, getKeysInner 1000000 (PV.var (s "x") Fmt.none) iol false = run (evs (PV.var (s "x") Fmt.none)) iol :=
+    fun iol => gki_eq_run _ _ iol (by decide) (by decide)
+  simp only [mergeAll, mergeValue, shapeOf, indexStrings_var, e]
+  exact ⟨_, _, rfl⟩
 
 end I18nVerif.Keys
